@@ -23,13 +23,17 @@ from sim.tag_t3t4 import (SimHang, SimT3Tag, T3Session, t3_attribute_block, EmuM
 logging.disable(logging.CRITICAL)
 
 MODEL = 'tags_blk'
-_T = ['Proofs/Chunks.vo', 'Proofs/T3T.vo', 'Proofs/T3TEmu.vo', 'Proofs/T4T.vo']
+_T = ['Proofs/Chunks.vo', 'Proofs/T3T.vo', 'Proofs/T3TEmu.vo', 'Proofs/T4T.vo', 'Bridge/Blk.vo']
+# Gen/BlkK.v: kernels cut out of tt3.py / tt4.py on every run (translate/kspec_tags_blk.py); Bridge/Blk.v ties them
+# to the models, Props/C01_blkBridge.v restates the bridge lemmas
 COQ = {
-    'C01': dict(gen=[], targets=_T, props=['C01_blk']),
-    'C02': dict(gen=[], targets=_T, props=['C02_blk']),
-    'C03': dict(gen=[], targets=_T, props=['C03_blk']),
+    'C01': dict(gen=['BlkK'], targets=_T, props=['C01_blk', 'C01_blkBridge']),
+    'C02': dict(gen=['BlkK'], targets=_T, props=['C02_blk', 'C01_blkBridge']),
+    'C03': dict(gen=['BlkK'], targets=_T, props=['C03_blk', 'C01_blkBridge']),
 }
-TRUSTED = ['Coq 8.16.1 kernel (no native_compute); extraction ExtrOcamlBasic + extract/tags_blk_run.ml; '
+TRUSTED = ['Coq 8.16.1 kernel (no native_compute); translate/py2coq.py + translate/kspec_tags_blk.py (kernel cutter with the '
+           'readings of struct.unpack / bytearray / subscript assignment listed in its docstring); '
+           'extraction ExtrOcamlBasic + extract/tags_blk_run.ml; '
            'simulators harness/sim/tag_t3t4.py (passive Type 3 tag, APDU-level Type 4 card) and the '
            'correspondence harness harness/parts/tags_blk.py']
 ASSUMPTIONS = {
